@@ -137,7 +137,7 @@ def _c01(tier, seed):
         for idx in _sample(seed, N_STRUCTS, 100):
             for pat in (0, 1, 2, 3):
                 runs.append("H_C01_rt(%d,%d,1,0)" % (idx, pat))
-        kern = ["H_string(0,9,1)", "H_string(250,258,1)", "H_string_last(0,9)", "H_string_last(250,261)", "H_popmessage_arbitrary(10)", "H_string(65534,65537,0)", "H_string_too_large(0)", "H_string_too_large(1)"]
+        kern = ["H_string(0,9,1)", "H_string(250,258,1)", "H_string_last(0,9)", "H_string_last(250,261)", "H_popmessage_arbitrary(10)", "H_string(65534,65537,0)", "H_string_too_large(0)", "H_string_too_large(1)", "H_strings_sequence(3,0,4)", "H_strings_sequence(3,254,257)", "H_strings_sequence(2,250,259)"]
     else:
         # every registered constructor with none / all / only-first / only-second; the shared-bit, service and
         # feature-cover classes with every single-member, all-but-one and pairwise pattern and at nesting depth 2
@@ -151,7 +151,7 @@ def _c01(tier, seed):
                 for variant in (1, 2):
                     runs.append("H_C01_class(%d,%d,1,2,%d)" % (cls, k, variant))
                     runs.append("H_C01_class(%d,%d,0,2,%d)" % (cls, k, variant))
-        kern = ["H_string(%d,%d,1)" % (a, a + 7) for a in range(0, 272, 8)] + ["H_string_last(%d,%d)" % (a, a + 15) for a in range(0, 288, 16)] + ["H_popmessage_arbitrary(16)", "H_string(65534,65537,0)", "H_string(16777212,16777215,0)", "H_string_too_large(0)", "H_string_too_large(1)", "H_string_too_large(5)"]
+        kern = ["H_string(%d,%d,1)" % (a, a + 7) for a in range(0, 272, 8)] + ["H_string_last(%d,%d)" % (a, a + 15) for a in range(0, 288, 16)] + ["H_popmessage_arbitrary(16)", "H_string(65534,65537,0)", "H_string(16777212,16777215,0)", "H_string_too_large(0)", "H_string_too_large(1)", "H_string_too_large(5)", "H_strings_sequence(3,0,5)", "H_strings_sequence(3,252,259)", "H_strings_sequence(2,240,270)"]
     return [
         dict(name="codec", pkg="telegram", harness=TL_HARNESS, overlay=TL_OVERLAY, native_overlay=TL_OVERLAY, runs=runs, solver="z3", walllimit=120, timeout=3000,
              validate_runs=["H_C01_class(1,0,3,1,0)", "H_C01_class(2,1,0,1,0)", "H_C01_class(2,20,0,1,0)", "H_C01_rt(%d,1,1,0)" % (seed % 1000), "H_C01_enum(3)"]),
@@ -191,7 +191,7 @@ def _c02(tier, seed):
         for idx in _sample(seed + 1, N_STRUCTS, 120):
             for pat in (0, 1, 2, 3):
                 runs.append("H_C02_wire(%d,%d,1,0)" % (idx, pat))
-        kern = ["H_string(0,9,1)", "H_string(250,258,1)", "H_string_last(250,261)", "H_string(65534,65537,0)", "H_string_too_large(0)", "H_string_too_large(1)"]
+        kern = ["H_string(0,9,1)", "H_string(250,258,1)", "H_string_last(250,261)", "H_string(65534,65537,0)", "H_string_too_large(0)", "H_string_too_large(1)", "H_strings_sequence(3,0,4)", "H_strings_sequence(3,254,257)", "H_strings_sequence(2,250,259)"]
     else:
         for idx in range(N_STRUCTS):
             for pat in (0, 1, 2, 3):
@@ -202,7 +202,7 @@ def _c02(tier, seed):
                     runs.append("H_C02_class(%d,%d,%d,1,0)" % (cls, k, pat))
                 for variant in (1, 2):
                     runs.append("H_C02_class(%d,%d,1,2,%d)" % (cls, k, variant))
-        kern = ["H_string(%d,%d,1)" % (a, a + 7) for a in range(0, 272, 8)] + ["H_string(65534,65537,0)", "H_string(16777212,16777215,0)", "H_string_too_large(0)", "H_string_too_large(1)", "H_string_too_large(5)"]
+        kern = ["H_string(%d,%d,1)" % (a, a + 7) for a in range(0, 272, 8)] + ["H_string(65534,65537,0)", "H_string(16777212,16777215,0)", "H_string_too_large(0)", "H_string_too_large(1)", "H_string_too_large(5)", "H_strings_sequence(3,0,5)", "H_strings_sequence(3,252,259)", "H_strings_sequence(2,240,270)"]
     return [
         dict(name="wire", pkg="telegram", harness=TL2_HARNESS, pre=_gen_schema, overlay=TL_OVERLAY, native_overlay=TL_OVERLAY, runs=runs, solver="z3", walllimit=120, timeout=3000,
              validate_runs=["H_C02_class(1,0,3,1,0)", "H_C02_class(2,1,0,1,0)", "H_C02_wire(%d,1,1,0)" % (seed % 1000), "H_C02_wire(%d,0,1,0)" % ((seed + 500) % 1000)]),
